@@ -492,6 +492,7 @@ func parentMain(args []string) int {
 					rec := ViolationRec{Index: res.crashedAt, What: res.crashKind, Detail: res.stderrTail}
 					agg.RaceBlocks = append(agg.RaceBlocks, res.races...)
 					died := !res.hang
+					historyDependent := false
 					if res.hang {
 						// bounded progress: confirm alone before calling it a violation; a case which, alone, kills
 						// its process instead of hanging (a runaway recursion reaching the stack limit) is a death
@@ -502,7 +503,8 @@ func parentMain(args []string) int {
 							again := runChunk(p, bin, false, *tier, seed, &chunk{from: c.from, to: res.crashedAt + 1, skip: c.skip}, work)
 							if again.crashedAt == res.crashedAt && (again.hang || again.crashedAt >= 0) {
 								alone = again
-								rec.What += " (not alone, but again after the same sequence of cases in a fresh process)"
+								rec.What += " (not alone, but again after the same sequence of cases in a fresh process; the rest of this range of cases is not run)"
+								historyDependent = true
 							}
 						}
 						switch {
@@ -536,7 +538,10 @@ func parentMain(args []string) int {
 							agg.Crashes = append(agg.Crashes, rec)
 						}
 					}
-					if len(c.skip) < 25 {
+					if historyDependent {
+						// what hangs is the state the process is in, not this case: every later case of the range would
+						// hang the same way (two watchdog periods each); the violation is recorded, the range is dropped
+					} else if len(c.skip) < 25 {
 						c.skip = append(c.skip, res.crashedAt)
 						pending.Add(1)
 						qch <- c
